@@ -1,73 +1,75 @@
 (* Props/C05.v — full node recovers from a crash at any point of block application.
-   Statements only; every proof is [exact <lemma of Proofs/SyncerProofs.v>].
+   Statements only; every proof is [exact <lemma of Proofs/Syncer(Old)Proofs.v>].
    Histories: events, clean restarts, [ICrash e k] (the process dies while handling event e after k
-   atomic datastore writes — an application is three writes: state, block batch, height — and a new
+   atomic datastore writes — an application is three writes: block batch, state, height — and a new
    process starts on that image with the cache files of the last clean shutdown), [ICrashBoot k]
-   (a start that itself dies after k writes), in any number and nesting. *)
+   (a start that itself dies after k of its writes, including those of the trySyncNextBlock call it
+   makes on the loaded caches), in any number and nesting.
+   Model = the code after the repairs f41125c (block before state) and 5877669 (try the loaded caches
+   when SyncLoop starts). *)
 From Coq Require Import String NArith ZArith List Bool.
 From Verif Require Import Base.KV Base.Keys Model.Types Model.Syncer Proofs.SyncerProofs.
+From Verif Require Model.SyncerOld Proofs.SyncerOldProofs.
 Import ListNotations.
 Open Scope list_scope.
 Open Scope N_scope.
 
-(* recovery AS WORDED IS FALSE of the code (F7): a crash after the state write and before the block save
-   of an application (write index 1) leaves state.height = n without block n; start-up raises the chain
-   height to n, events at heights <= n are skipped, and the block at height n is never the proposer's *)
-Theorem C05_recovery_refuted :
+(* for every execution function, genesis, valid chain and EVERY history — crashes after ANY number of
+   writes of ANY event, crashes during start-up, recurring, nested, clean restarts — NO guard: the node is
+   running and holds exactly a prefix of the proposer's chain: every height up to the recorded height has
+   the proposer's block, and the recorded state (on disk and in memory) is the state of exactly that
+   height (state.height = height). *)
+Theorem C05_recovery_full : forall exec g k C h,
+  ChainValid exec g k C -> Forall (item_in C) h -> recovered exec g C (run exec g h).
+Proof. exact recovery. Qed.
+Print Assumptions C05_recovery_full.
+
+(* "after restart it continues syncing and reaches the proposer's chain": after ANY past h1 (crashes
+   included), if the clean suffix h2 delivers — in any order — the header of every block up to m that is
+   not yet applied and the data of every such non-empty block, the node reaches height initial + m - 1.
+   GUARD: distinct_commitmentsb C (the still-open C02 finding: two blocks with equal non-empty tx lists);
+   that is the only thing missing for _full. *)
+Theorem C05_resync_partial : forall exec g k C h1 h2 m,
+  ChainValid exec g k C -> Forall (item_in C) (h1 ++ h2) -> forallb is_clean h2 = true ->
+  distinct_commitmentsb C = true -> (m <= length C)%nat ->
+  (forall i b, (i < m)%nat -> nth_error C i = Some b ->
+     g_initial g + N.of_nat i <= d_height (n_disk (run exec g h1)) \/ header_delivered h2 b) ->
+  (forall i b, (i < m)%nat -> nth_error C i = Some b -> d_txs (snd b) <> [] ->
+     g_initial g + N.of_nat i <= d_height (n_disk (run exec g h1)) \/ data_delivered h2 b) ->
+  g_initial g + N.of_nat m - 1 <= d_height (n_disk (run exec g (h1 ++ h2))).
+Proof. exact progress. Qed.
+Print Assumptions C05_resync_partial.
+
+(* ---- the two defects of the code BEFORE the repairs, on the frozen old model (Model/SyncerOld.v) ---- *)
+(* F7: a crash after the state write and before the block save left state.height = n without block n *)
+Example before_the_repair_recovery_refuted :
   exists exec g k C h,
-    ChainValid exec g k C /\ Forall (item_in C) h /\ ~ recovered exec g C (run exec g h).
-Proof. exact recovery_refuted. Qed.
-Print Assumptions C05_recovery_refuted.
-
-(* "continues syncing and reaches the proposer's chain" IS ALSO FALSE without any crash at write index 1:
-   after a clean stop the cache files hold header+data of block n+1 as cached and seen; if the process
-   later dies exactly between the applications of n and n+1, the new process loads those files, every
-   further copy of block n+1's header and data is dropped as seen, and trySyncNextBlock is never called
-   again although both parts sit in the cache — the node stays below the chain it has fully received *)
-Theorem C05_resync_refuted :
+    SyncerOld.ChainValid exec g k C /\ Forall (SyncerOld.item_in C) h /\
+    ~ SyncerOld.recovered exec g C (SyncerOld.run exec g h).
+Proof. exact SyncerOldProofs.old_recovery_refuted. Qed.
+(* stale cache files: both parts of the next block cached and seen, never applied after a crash *)
+Example before_the_repair_resync_refuted :
   exists exec g k C h1 h2,
-    ChainValid exec g k C /\ Forall (item_in C) (h1 ++ h2) /\
-    no_bad_crash exec g (init g) (h1 ++ h2) = true /\ forallb is_clean h2 = true /\
-    (forall b, In b C -> header_delivered h2 b /\ data_delivered h2 b) /\
-    d_height (n_disk (run exec g (h1 ++ h2))) < g_initial g + N.of_nat (length C) - 1.
-Proof. exact resync_refuted. Qed.
-Print Assumptions C05_resync_refuted.
-
-(* GUARDED: for every execution function, genesis, valid chain and EVERY history of chain events, clean
-   restarts, crashes inside event handling after any number of writes and crashes during start-up — in any
-   number and nesting — in which no crash lands at write index 1 of an application (decidable guard
-   [no_bad_crash], evaluated along the run): after the history the node is running and holds exactly a
-   prefix of the proposer's chain: every height up to the recorded height has the proposer's block, the
-   recorded state is the state of exactly that height (state.height = height), in memory and on disk.
-   What is missing w.r.t. the property as worded: crashes at write index 1 (refuted above) and the
-   "continues syncing ... reaches the proposer's chain" clause after a restart (refuted above when cache
-   files of an earlier clean stop exist; otherwise only tested). *)
-Theorem C05_recovery_partial : forall exec g k C h,
-  ChainValid exec g k C -> Forall (item_in C) h -> no_bad_crash exec g (init g) h = true ->
-  recovered exec g C (run exec g h).
-Proof. exact recovery_partial. Qed.
-Print Assumptions C05_recovery_partial.
+    SyncerOld.ChainValid exec g k C /\ Forall (SyncerOld.item_in C) (h1 ++ h2) /\
+    SyncerOld.no_bad_crash exec g (SyncerOld.init g) (h1 ++ h2) = true /\ forallb SyncerOld.is_clean h2 = true /\
+    (forall b, In b C -> SyncerOld.header_delivered h2 b /\ SyncerOld.data_delivered h2 b) /\
+    SyncerOld.d_height (SyncerOld.n_disk (SyncerOld.run exec g (h1 ++ h2))) < SyncerOld.g_initial g + N.of_nat (length C) - 1.
+Proof. exact SyncerOldProofs.old_resync_refuted. Qed.
 
 (* ---- non-vacuity: crashes at write indices 5 (inside the second block of one trySyncNextBlock run),
-   2, 0 and 3, crashes during start-up, recurring crashes, a clean restart; the guard holds and the node
-   ends fully synced (initial height 2, four blocks: heights 2..5) ------------------------------------------------------------------------------------ *)
+   1 (after the block save, before the state), 2, 0 and 3, crashes during start-up, recurring crashes, a
+   clean restart with non-empty cache files; the node ends fully synced (initial height 2, heights 2..5) *)
 Definition ex5 := ex_chain 2 [([], 100%Z); ([1], 101%Z); ([], 101%Z); ([2; 3], 105%Z)].
 Definition crash_h (C : list block) (i : nat) (q : nat) : item :=
   ICrash (EvHeader (fst (nth i C (genesis_block (ex_g 1)))) 0) q.
 Definition ex5_hist :=
-  [ IRestart; evh ex5 3 1; evd ex5 3 1; evd ex5 1 1; evh ex5 1 1; evh ex5 2 1;
-    crash_h ex5 0 5; ICrashBoot 1; evh ex5 3 2; evd ex5 3 2; crash_h ex5 2 2; crash_h ex5 3 0; ICrashBoot 0;
-    evd ex5 3 3; crash_h ex5 3 3; evh ex5 0 4 ].
+  [ evh ex5 3 1; evd ex5 3 1; IRestart; evd ex5 1 1; evh ex5 1 1;
+    crash_h ex5 0 5; ICrashBoot 1; crash_h ex5 2 1; ICrashBoot 0; crash_h ex5 2 2; evh ex5 0 4 ].
 Example ex5_meets_hypotheses :
-  ChainValid ex_exec (ex_g 2) 1 ex5 /\ Forall (item_in ex5) ex5_hist /\
-  no_bad_crash ex_exec (ex_g 2) (init (ex_g 2)) ex5_hist = true.
+  ChainValid ex_exec (ex_g 2) 1 ex5 /\ Forall (item_in ex5) ex5_hist /\ distinct_commitmentsb ex5 = true.
 Proof.
   split; [chain_valid|]. split; [repeat constructor; cbn; try exact I; eexists; solve_in|vm_compute; reflexivity].
 Qed.
 Example ex5_heights :
-  map (fun n => d_height (n_disk (run ex_exec (ex_g 2) (firstn n ex5_hist)))) [6; 7; 10; 11; 14; 15; 16]%nat = [1; 3; 3; 4; 4; 5; 5].
+  map (fun n => d_height (n_disk (run ex_exec (ex_g 2) (firstn n ex5_hist)))) [5; 6; 7; 8; 9; 10; 11]%nat = [1; 3; 3; 3; 3; 5; 5].
 Proof. vm_compute. reflexivity. Qed.
-
-(* the F7 witness is outside the guard of the partial theorem *)
-Example f7_outside_guard : no_bad_crash ex_exec (ex_g 1) (init (ex_g 1)) f7_hist = false.
-Proof. exact recovery_refuted_guard. Qed.
